@@ -516,14 +516,22 @@ theorem convOutputType_defined (p : Node) (v t : Val) (h : convOutputType p v = 
   all_goals (try cases h)
   all_goals exact typeUndefined_typeDict_arr _ _
 
+theorem poolArray_defined (c : Int) (out : List Int) (cv a : Val) (h : poolArray c out cv = .ok a) :
+    typeUndefined (typeDict "output" a) = false := by
+  unfold poolArray at h
+  split at h
+  · cases h; simp [typeDict, typeUndefined]
+  · split at h
+    · cases h
+    · cases h; exact typeUndefined_typeDict_arr _ _
+  · cases h; exact typeUndefined_typeDict_arr _ _
+
 theorem poolOutputType_defined (pre p : Node) (t : Val) (h : poolOutputType pre p = .ok t) :
     typeUndefined t = false := by
   simp only [poolOutputType, bind, Except.bind, pure, Except.pure] at h
   repeat' split at h
   all_goals (try cases h)
-  all_goals first
-    | exact typeUndefined_typeDict_arr _ _
-    | simp [typeDict, typeUndefined]
+  all_goals (rename_i ha; exact poolArray_defined _ _ _ _ ha)
 
 /-- kinds whose output type inference (re)computes -/
 def inferable (k : String) : Bool :=
